@@ -598,6 +598,49 @@ def check_structure(scfg: SCFG, flat: Flat | None = None, g: dict | None = None)
                     break
             if not ok:
                 raise Viol("S-backedge-target", f"{k}: back edge to {t} is not the header of an enclosing loop region")
+    # the same claims on the *real* edges of the leaf blocks (a region block's
+    # own targets are only a copy): a loop region is entered at its header
+    # only, and everything that leaves an arm continues at the common tail
+    interiors = {r: flat.interior(r) for r in flat.regions}
+
+    def leaving(r):
+        inside = interiors[r]
+        for k in inside:
+            b = flat.blocks.get(k)
+            if b is None:
+                continue
+            for t in b._jump_targets:
+                if t in b.backedges:
+                    continue
+                rt = flat.resolve(t)
+                if rt not in inside:
+                    yield k, rt
+
+    for rname, r in flat.regions.items():
+        if r.kind == "loop":
+            hdr = flat.resolve(rname)
+            inside = interiors[rname]
+            for k, b in flat.blocks.items():
+                if k in inside:
+                    continue
+                for t in b._jump_targets:
+                    rt = flat.resolve(t)
+                    if rt in inside and rt != hdr:
+                        raise Viol("S-loop-entry", f"loop region {rname} is entered at {rt} by {k}, its header is {hdr}")
+    for rname, g_ in _level_graphs(flat):
+        for k, b in g_.graph.items():
+            if isinstance(b, RegionBlock) and b.kind == "head" and len(b.jump_targets) > 1:
+                arms = [g_.graph.get(t) for t in b.jump_targets]
+                if not all(isinstance(a, RegionBlock) and len(a.jump_targets) == 1 for a in arms):
+                    continue  # reported by the level clauses below
+                tail = arms[0].jump_targets[0]
+                if tail not in flat.regions and tail not in flat.blocks:
+                    continue
+                want = flat.resolve(tail)
+                for a in arms:
+                    for src, rt in leaving(a.name):
+                        if rt != want:
+                            raise Viol("S-arm-real", f"arm {a.name} of head region {k} is left by {src} towards {rt}, the common tail {tail} starts at {want}")
     # (d)/(e) branching
     for rname, g in _level_graphs(flat):
         for k, b in g.graph.items():
